@@ -6,11 +6,11 @@ CONSTANTS
   MaxEdits = 2
   MaxReopens = 1
   EditOps = {"channels", "unit", "input_type", "waveform", "timing_mark", "loop_radius", "crossline_offset", "inline_offset", "vertical_offset", "pitch", "roll", "yaw", "relative_to_bearing", "edit_em_metadata", "edit_metadata"}
-  CopyModes = {"plain-same", "plain-other"}
+  CopyModes = {"plain-other"}
   MaskNames = {"lo"}
   Focus = TRUE
   BadValues = TRUE
-  ValuesPerOp = 3
+  ValuesPerOp = 2
   EditWhen = "always"
   Deviations = {}
 VIEW vw
@@ -27,6 +27,7 @@ PROPERTY ReopenResolves
 PROPERTY CopyCopiesPartner
 PROPERTY EditIsLocal
 PROPERTY RefusedIsNoop
+PROPERTY ValidEditsAccepted
 INVARIANT ExportState
 ACTION_CONSTRAINT ExportTrans
 CHECK_DEADLOCK FALSE
